@@ -84,6 +84,12 @@ def run(ctx: Ctx):
                      f"(origin: {origin})", steps=chain)
     # the thread target functions are indeed the analysed workers
     _thread_targets(ctx, model, workers)
+    # value faults are outside the fault model's raise sets: the reader worker must isolate its
+    # message handler structurally
+    from . import c05
+    ctx.include(c05.run, {"C05-R4"}, "C14-R1c",
+                "the reader worker isolates the message handler (try/except Exception around "
+                "the dispatch) and cannot return silently", floor=3)
 
     # ------------------------------------------------------------------ R2
     _slot_pairing(ctx, model, F)
